@@ -13,6 +13,7 @@ import (
 	"github.com/relab/hotstuff/core"
 	"github.com/relab/hotstuff/core/eventloop"
 	"github.com/relab/hotstuff/internal/proto/clientpb"
+	"github.com/relab/hotstuff/internal/tree"
 	"github.com/relab/hotstuff/protocol"
 	"github.com/relab/hotstuff/protocol/comm"
 	"github.com/relab/hotstuff/protocol/consensus"
@@ -177,6 +178,11 @@ func (w *World) buildNodes() error {
 		if p.Ruleset == rules.NameFastHotStuff || p.knob("aggqc", 0) == 1 {
 			opts = append(opts, core.WithAggregateQC())
 		}
+		if w.kauri() {
+			tr := tree.NewSimple(nd.id, p.knob("bf", 2), w.treePositions())
+			tr.SetTreeHeightWaitTime(time.Duration(p.ViewDur.Ms) * time.Millisecond / 8)
+			opts = append(opts, core.WithKauriTree(tr))
+		}
 		nd.cfg = core.NewRuntimeConfig(nd.id, w.keys.priv[nd.id], opts...)
 		nd.log = &simLogger{nd: nd}
 		nd.el = eventloop.New(nd.log, uint(p.Queue))
@@ -243,18 +249,27 @@ func (nd *Node) build(base crypto.Base) error {
 	nd.commit = consensus.NewCommitter(nd.el, nd.log, nd.bc, nd.states, nd.rules)
 
 	var lr leaderrotation.LeaderRotation
-	switch p.Leader {
+	leaderName := p.Leader
+	if w.kauri() {
+		leaderName = leaderrotation.NameTree
+	}
+	switch leaderName {
 	case "scripted":
 		lr = &scriptLeader{script: p.Script, prefix: p.PrefixScript, n: p.N}
 	default:
-		lr, err = leaderrotation.New(nd.log, nd.cfg, nd.bc, nd.states, p.Leader, nd.rules.ChainLength())
+		lr, err = leaderrotation.New(nd.log, nd.cfg, nd.bc, nd.states, leaderName, nd.rules.ChainLength())
 		if err != nil {
 			return err
 		}
 	}
 	nd.leader = &leaderWrap{inner: lr, nd: nd}
-	nd.vm = votingmachine.New(nd.log, nd.el, nd.cfg, nd.bc, nd.auth, nd.states)
-	clique := comm.NewClique(nd.cfg, nd.vm, nd.leader, nd.sender)
+	var clique comm.Communication
+	if w.kauri() {
+		clique = comm.NewKauri(nd.log, nd.el, nd.cfg, nd.bc, nd.auth, nd.sender)
+	} else {
+		nd.vm = votingmachine.New(nd.log, nd.el, nd.cfg, nd.bc, nd.auth, nd.states)
+		clique = comm.NewClique(nd.cfg, nd.vm, nd.leader, nd.sender)
+	}
 	nd.voter = consensus.NewVoter(nd.cfg, nd.leader, nd.rules, clique, nd.auth, nd.commit)
 	nd.cache = clientpb.NewCommandCache(uint32(p.Batch))
 	nd.prop = consensus.NewProposer(nd.el, nd.cfg, nd.bc, nd.states, nd.rules, clique, nd.voter, nd.cache, nd.commit)
@@ -497,4 +512,22 @@ func (l *simLogger) Warnf(t string, args ...any) {
 		l.nd.overflowed = true
 		l.nd.w.fault("queue-overflow")
 	}
+}
+
+// ---- Kauri mode: tree dissemination and aggregation ---------------------------------------------------
+
+func (w *World) kauri() bool { return w.plan.knob("kauri", 0) == 1 }
+
+// treePositions: the plan's assignment of replicas to tree positions (a seeded permutation).
+func (w *World) treePositions() []hotstuff.ID {
+	n := w.plan.N
+	ids := make([]hotstuff.ID, n)
+	for i := range ids {
+		ids[i] = hotstuff.ID(i + 1)
+	}
+	for i := n - 1; i > 0; i-- {
+		j := int(mix(w.plan.Inner, 0x74726565, uint64(i)) % uint64(i+1))
+		ids[i], ids[j] = ids[j], ids[i]
+	}
+	return ids
 }
